@@ -234,10 +234,10 @@ def _case(draw):
             'overwrite': False, 'previous': None}
     r = draw(st.sampled_from(range(6)))
     if r <= 1:
-        pf = draw(base.frames(max_rows=8, max_geoms=1))
+        pf = draw(base.frames(max_rows=12, max_geoms=1))
         pf['id'] = [1000 + i for i in pf['id']]
         case['overwrite'] = True
-        case['previous'] = {'frame': pf, 'npartitions': draw(st.integers(1, 12)), 'how': draw(st.sampled_from(['pack', 'pack', 'to_parquet']))}
+        case['previous'] = {'frame': pf, 'npartitions': draw(st.sampled_from(range(1, 13))), 'how': draw(st.sampled_from(['pack', 'to_parquet']))}
     elif r == 2:
         case['overwrite'] = True                 # overwrite=True with nothing at the path
     return case
